@@ -282,6 +282,9 @@ type noteDoc struct {
 
 var noteMarkRe = regexp.MustCompile(`\[(尾注)?(\d+)\]$`)
 
+// noteTexts: token -> the full text the note was given (per case; cases run one at a time in a worker).
+var noteTexts = map[string]string{}
+
 func c15CheckNotes(res *core.Result, nd *noteDoc, allTokens map[string]bool, stage, note string) {
 	raw, err := nd.d.ToBytes()
 	if err != nil {
@@ -315,6 +318,13 @@ func c15CheckNotes(res *core.Result, nd *noteDoc, allTokens map[string]bool, sta
 			for tk := range allTokens {
 				if strings.Contains(sb.String(), tk) {
 					count[tk]++
+					// the note carries the text it was given (what XML cannot carry comes back as U+FFFD)
+					if want, ok := noteTexts[tk]; ok && kind.led != nil {
+						res.Count("note_texts_compared", 1)
+						if got := sb.String(); strings.TrimSpace(got) != strings.TrimSpace(xmlCarried(want)) {
+							res.Add(stage+"/notes/text-differs/"+kind.el, fmt.Sprintf("the %s given the text %q reads %q", kind.el, want, got), note)
+						}
+					}
 				}
 			}
 		}
@@ -366,6 +376,7 @@ func c15Notes(c *core.Ctx, r *rng.R) *core.Result {
 		docs = append(docs, &noteDoc{d: document.New(), foot: map[string]string{}, end: map[string]string{}, name: fmt.Sprintf("document %d of %d", i+1, nDocs)})
 	}
 	tokens := map[string]bool{}
+	noteTexts = map[string]string{}
 	var log []string
 	serial := 0
 	n := r.Range(3, tierN(c.Tier, 24, 60))
@@ -399,19 +410,30 @@ func c15Notes(c *core.Ctx, r *rng.R) *core.Result {
 			serial++
 			tk := fmt.Sprintf("⟦N%d-%d⟧", c.Case, serial)
 			end := r.Chance(1, 3)
+			// the note text: the token, then text of every kind XML can carry - also characters without a glyph of their own
+			// (ideographic and no-break blanks, joiners, direction marks, soft hyphen), which are text like any other
+			full := tk + " " + gen.SafeString(r)
+			if r.Chance(1, 3) {
+				full += []string{"第一章\u3000绪论", "10\u00a0km", "👨\u200d👩\u200d👧", "a\u200eb\u200fc", "co\u00adoperate", "x\u202fy", "zero\u200cwidth", "\ufeffbom inside"}[r.Intn(8)]
+			}
+			if r.Chance(1, 8) {
+				full += []string{"ctl\x01char", "vt\x0bff\x0c", "bad\xffutf8", "bell\x07"}[r.Intn(4)] // what XML cannot carry: replaced or refused, never half done
+			}
+			noteTexts[tk] = full
+			elementsBefore := len(nd.d.Body.Elements)
 			var err error
 			variant := "AddFootnote"
 			cg := core.Catch(func() {
 				switch {
 				case end:
 					variant = "AddEndnote"
-					err = nd.d.AddEndnote("text "+gen.Word(r, 1, 4), tk+" "+gen.SafeString(r))
+					err = nd.d.AddEndnote("text "+gen.Word(r, 1, 4), full)
 				case r.Chance(1, 4):
 					variant = "AddFootnoteToRun"
 					p := nd.d.AddParagraph("run with note")
-					err = nd.d.AddFootnoteToRun(&p.Runs[0], tk+" "+gen.SafeString(r))
+					err = nd.d.AddFootnoteToRun(&p.Runs[0], full)
 				default:
-					err = nd.d.AddFootnote("text "+gen.Word(r, 1, 4), tk+" "+gen.SafeString(r))
+					err = nd.d.AddFootnote("text "+gen.Word(r, 1, 4), full)
 				}
 			})
 			log = append(log, fmt.Sprintf("%s@%d", variant, di))
@@ -421,6 +443,14 @@ func c15Notes(c *core.Ctx, r *rng.R) *core.Result {
 			}
 			if err != nil {
 				res.Count("note_add_errors", 1)
+				// a refused note leaves nothing behind: no reference mark in the body, no change of the counts
+				grew := len(nd.d.Body.Elements) - elementsBefore
+				if variant == "AddFootnoteToRun" {
+					grew-- // the paragraph the harness itself added for the run
+				}
+				if grew != 0 {
+					res.Add(st+"/notes/refused-note-left-its-mark/"+variant, fmt.Sprintf("%s returned an error (%v) but the body has %d more element(s): the reference mark of a note that does not exist", variant, err, grew), note())
+				}
 				break
 			}
 			id, ok := lastMark(nd.d)
